@@ -41,6 +41,11 @@ def gen_world(seed, wi):
         ng = 1
         gopts = [dict(WL.gene_opts(rng, small=True), name="NUDT15", n_exons=3, pseudo=False, deletion=True,
                       lfusion=False, rfusion=False, cn_subset=False)]
+    deep = wi % 67 == 5  # (thorough tier only: the quick tier has 14 worlds)
+    if deep and not exome:
+        ng = 1
+        gopts = [dict(WL.gene_opts(rng, small=True), gene_len=420, pseudo=False, lfusion=False, rfusion=False,
+                      deletion=True)]
     gopts.append(dict(strand=rng.choice("+-"), gene_len=420, n_exons=2, n_variants=3, n_major=1,
                       pseudo=False, deletion=True))
     ro = WL.read_opts(rng)
@@ -55,6 +60,30 @@ def gen_world(seed, wi):
         # the declared neutral region is wider than what the reads cover (positions with zero depth)
         c0, c1 = world["neutral"]
         world["neutral_zone"] = [c0 + rng.randint(5, 40), c1 - rng.randint(5, 40)]
+    if rng.random() < 0.4 or deep:
+        # uneven qualities: some records below the mapping-quality threshold, scattered bases of quality 5,
+        # possibly only in the first / second half of the file (the archive stores the observations of a
+        # position as a multiset; the order in which they come back is not the read order)
+        smp["lowq"] = {"seed": rng.randint(0, 999), "frac": rng.choice([0.15, 0.3, 0.45]),
+                       "kind": rng.choice(["base", "base", "mapq", "both"]),
+                       "shape": rng.choice(["random", "front", "back"])}
+    if deep and not exome:
+        # ultra-deep sample: more than 5000 observations per position
+        per_copy = ro["L"] // ro["step"]
+        smp["dup"] = -(-5400 // (2 * per_copy))
+        smp["genes"] = {g["name"]: [u for u in us if u["type"] in ("normal", "deletion")][:2] or
+                        [{"type": "normal", "allele": "1.001"}, {"type": "normal", "allele": "1.001"}]
+                        for g, us in ((g, smp["genes"][g["name"]]) for g in world["genes"][:-1])}
+        if rng.random() < 0.7:
+            # two copies of one allele with variants and a third copy of another: at its sites one allele has
+            # more than 5000 observations and the other allele is present too
+            for g in world["genes"][:-1]:
+                normal = [a["name"] for a in g["alleles"] if a["kind"] == "normal"]
+                withv = [a["name"] for a in g["alleles"] if a["kind"] == "normal" and a["vars"]]
+                if withv:
+                    a = rng.choice(withv)
+                    smp["genes"][g["name"]] = [{"type": "normal", "allele": a}, {"type": "normal", "allele": a},
+                                               {"type": "extra", "allele": rng.choice([n for n in normal if n != a])}]
     if exome:
         # a structure other than two plain copies: the exome route must not notice, and neither may the replay
         g0 = world["genes"][0]
